@@ -4,7 +4,7 @@ from props.fsmlib import *
 SEED = [1]
 def cases(tier):
     L = []
-    fams = QUICK if tier == 'quick' else THOROUGH
+    fams = (QUICK if tier == 'quick' else THOROUGH) + ['fw5']
     T = 1 if tier == 'quick' else 3
     for fam in fams:
         o = dict(sublimit=2, callbacks=['guard', 'life', 'select'], act=[], kinds=0)
@@ -21,6 +21,7 @@ def cases(tier):
         rnd = random.Random(SEED[0] * 7919 + len(L))
         pairs = [(a, b) for a in range(ns) for b in range(ns)]
         if ns > 10: pairs = rnd.sample(pairs, 40)        # all ordered pairs up to 10 states, a seeded sample beyond
+        if fam == 'fw5' and tier == 'quick': pairs = rnd.sample(pairs, 16)
         for a, b in pairs:               # batch of two queued requests: kinds symbolic, destinations case-split
             L.append(fsm_case('C02', fx, 'batch2_d%d_d%d' % (a, b), base + ['ENTRY=3', 'NREQ=2', 'EXT_KINDS=0x9e', 'DEST0=%d' % a, 'DEST1=%d' % b], timeout=900 * T, witness=False))
         if tier == 'thorough' and fx['T'].nc >= 3:
